@@ -153,6 +153,18 @@ def binding_demo(run, graph, seed):
             e["key"] = "velx"
             break
     v = M.validate_traces(graph, M.INPUT_SETS["tensors"], True, [good, bad1, bad2])
+    if v["violated"]:
+        # the demo's own (uncorrupted) trace breaks a named invariant: a finding about the code, not about the demo
+        name, tid, pos = v["violated"]
+        fpid = {"NoInPlaceWrite": "C02", "CacheNeverWritten": "C01"}.get(name, "C03")
+        msg = (f"trace of history ['Hamiltonian', 'gdet', 'Ktrace'] (clear_cache_every_nbr_calc=2) violates {name} at event {pos}"
+               + (f": {good[pos - 2]}" if tid == 1 and 1 < pos <= len(good) + 1 else ""))
+        if fpid == run.pid and tid == 1:
+            run.violation({"clause": name, "where": "trace"}, msg, dict(out["setting"], event_index=pos))
+        else:
+            run.note_drift("binding demo: " + msg)
+        run.add_tlc(v["res"], "binding demo (stopped: the recorded trace violates an invariant)")
+        return
     if 1 in v["rejected"] and not v["violated"]:
         # the unmodified trace itself no longer conforms (the code drifted from the model): reported as drift, the demo says nothing
         run.note_drift(f"binding demo: the recorded trace of [Hamiltonian, gdet, Ktrace] stops matching the model at event {v['rejected'][1]}")
